@@ -61,6 +61,8 @@ type specRecord struct {
 	External   map[string]string    `json:"external"`
 	WhenDefs   map[string]string    `json:"when_defs"`
 	Filing     map[string]int       `json:"transform_filing"`
+	// MinOctets: length of the shortest encoding of the record on the encodable domain (nil: not stated)
+	MinOctets *int64 `json:"min_octets"`
 }
 
 func (r *specRecord) when(tag string) string {
